@@ -51,6 +51,9 @@ UNITS['c07'] = {
         ('union_direction_flipped', 'self.parents[vrep] = wrep;', 'self.parents[wrep] = vrep;', ['C07.uf.union', 'C07.uf.nopanic.union']),
         ('union_links_element_not_root', 'self.parents[vrep] = wrep;', 'self.parents[v] = wrep;', ['C07.uf']),
         ('reduce_stops_one_early', 'if parent == v_ { return v_; }', 'if parent == v_ || self.parents[parent] == parent { return v_; }', ['C07.uf.reduce']),
+        ('unify_no_occurs_on_right_variable', 'if occurs(&right, &left) {', 'if false {', ['C07.unify.occurs_before_bind']),
+        ('unify_arity_only_checks_shorter_left', 'if left_bindings.len() != right_bindings.len() {', 'if left_bindings.len() > right_bindings.len() {', ['C07.unify.head_sound']),
+        ('unify_head_mismatch_accepted', 'Err(Error::new( Kind::InvalidType, "mismatch", ))', 'Ok(())', ['C07.unify.head_sound']),
         ('find_reports_no_reduction', 'Some((self.tags.get_index(vrep).unwrap(), vrep != v))', 'Some((self.tags.get_index(vrep).unwrap(), false))', ['C07.uf.find']),
     ],
 }
@@ -190,7 +193,8 @@ PROPS = {
         'units': ['lex', 'c07', 'c16'],
         'kani': [dict(_KANI_STATUS, obligation='C04.status.try_from.total')],
         'level': 'other',
-        'obligation_prefixes': ['C04.', 'C07.occurs.terminates', 'C07.occurs.nopanic', 'C07.uf.terminates', 'C07.uf.nopanic', 'C16.p2u.no_overflow', 'C16.u2p.no_overflow',
+        'obligation_prefixes': ['C04.', 'C07.occurs.terminates', 'C07.occurs.nopanic', 'C07.uf.terminates', 'C07.uf.nopanic', 'C07.unify.nopanic', 'C07.unify.keeps_forest', 'C07.unify.occurs_before_bind',
+                                'C07.equation.', 'C07.inference_set.', 'C16.p2u.no_overflow', 'C16.u2p.no_overflow',
                                 'C16.p2u.body', 'C16.u2p.body', 'C16.range.body'],
         'technique': 'Verus totality contracts (no panic / overflow / out-of-bounds slice, termination) on the real lexer conversions, tokenize, occurs, union-find and position conversions; complete Kani proof for HttpStatus::try_from',
         'level_text': 'Function-level totality, for all inputs, of every front-end function within reach of the verifiers: tokenize and the four token-value conversions '
@@ -227,21 +231,24 @@ PROPS = {
         'units': ['c07'],
         'level': 'other',
         'obligation_prefixes': ['C07.'],
-        'technique': 'Verus contracts on the real occurs (completeness against sub-term containment, termination) and UnionFind (ranked-forest invariant, termination of both loops, no panic, representative laws of reduce/reduce_mut/union/find)',
+        'technique': 'Verus contracts on the real occurs (completeness against sub-term containment, termination), UnionFind (ranked-forest invariant, termination, no panic, representative laws) and unify / InferenceSet::unify (forest invariant kept, occurs check before every binding, head soundness)',
         'level_text': 'Deductive proof (Verus/Z3), for all tags and all union-find states, of the function-level clauses only: occurs(a,b) is exactly '
                       'sub-term containment through every constructor (so self-containing types cannot be bound), both path walks terminate, the forest '
                       'invariant is preserved by insert/reduce_mut/union, no indexing or assert can panic. unify/constrain/substitute are outside Verus '
                       '(closures capturing &mut), so order/naming independence and agreement with a reference unifier are not decided: level other.',
         'level_note': 'Trusted: indexmap::IndexSet insert_full/get_full/get_index as an insertion-ordered duplicate-free sequence; derived PartialEq of Tag is structural; '
-                      'rule R4 (iter().any inlined to its short-circuit loop), R1 (break v -> return v at tail loop). Not decided: that unify calls occurs before binding, '
-                      'order / renaming independence, coincidence with solvability.',
+                      'rule R4 (iter().any inlined to its short-circuit loop), R1 (break v -> return v at tail loop), R8 (Result::and_then / zip+try_for_each rewritten to match / index loop by their std definitions), '
+                      'union::reduce (free function) as an uninterpreted function of (structure, tag). unify\'s own termination is NOT proved (exec_allows_no_decreases_clause). '
+                      'Not decided: order / renaming independence, coincidence with solvability (full soundness `Ok ==> both sides reduce to the same tag`).',
         'design_ref': 'DESIGN.md section 5, C07',
         'explanation': 'Decides: (1) occurs is complete w.r.t. containment through Func bindings, Func range and Property (postcondition taken from the property, not the code); '
                        '(2) UnionFind: ranked-forest invariant preserved, reduce/reduce_mut terminate and return THE representative of the class, path compression keeps every class, '
                        'union merges exactly the left class into the right one (right representative wins) and leaves all other classes alone, find returns the class representative and the reduced flag; no panic. '
-                       'Does not decide unify/reduce(free fn)/constrain/substitute (Verus rejects closures capturing &mut UnionFind; Kani did not finish on depth-1 tags).',
+                       '(3) unify (after rule R8) / TypeEquation::unify / InferenceSet::unify: the forest invariant survives the whole unification (no panic in any union-find operation), a variable is bound only after an occurs check on the very terms bound, '
+                       'and Ok implies the two reduced sides have compatible heads (same constructor and arity, or a variable). '
+                       'Does not decide reduce (free fn) / constrain / substitute, nor full soundness of unification or its termination.',
         'assumptions': ['IndexSet behaves as documented (conformance not proved)', 'Tag equality is structural'],
-        'not_decided': ['unify calls occurs before every binding', 'verdict independent of declaration order and identifier spelling', 'verdict coincides with solvability of the kind constraints', 'termination of union::reduce (free function) and substitute'],
+        'not_decided': ['verdict independent of declaration order and identifier spelling', 'verdict coincides with solvability of the kind constraints', 'termination of union::reduce (free function) and substitute'],
     },
     'C15': {
         'units': ['c15', 'c16'],
